@@ -272,6 +272,10 @@ func (g *generator) walkAnyOf(schema *openapi3.Schema) (ast.Type, error) {
 }
 
 func (g *generator) walkEnum(schema *openapi3.Schema) (ast.Type, error) {
+	if len(schema.Enum) == 0 {
+		return ast.Type{}, fmt.Errorf("enum with no values")
+	}
+
 	// Nullable enums? https://swagger.io/docs/specification/data-models/enums/
 	enums := make([]ast.EnumValue, 0, len(schema.Enum))
 	format := "%#v"
